@@ -7,7 +7,7 @@
 (*  MODE "enum"  : every string of 0..N characters over the alphabet       *)
 (*  MODE "spell" : strings read from IOEnv.IN (random, all planes)         *)
 (***************************************************************************)
-EXTENDS LexVal, Json, IOUtils, TLC
+EXTENDS LexVal, Json, IOUtils, TLC, SequencesExt
 
 N == CHOOSE n \in 0..16 : ToString(n) = IOEnv.N
 Alpha == {97, cSQUOTE, cBTICK, cDQUOTE, cBSLASH, cSPACE, cNL, 233, 128512, 47}
